@@ -318,6 +318,85 @@ theorem c15_refundAddress_lossless (s : Str) (p : Bytes) (h : refundAddressPaylo
 
 example : ∃ p, refundAddressPayload (List.replicate 66 48) = .ok p := ⟨_, rfl⟩
 
+/-! ## losslessness as injectivity: within a kind, two accepted requests with the same payload asked for the same values -/
+
+theorem c15_messageFee_injective (f₁ f₂ : Str) (p : Bytes) (h₁ : updateMessageFeePayload f₁ = .ok p)
+    (h₂ : updateMessageFeePayload f₂ = .ok p) : hexDecode f₁ = hexDecode f₂ := by
+  obtain ⟨b₁, e₁, _, _, _, _, s₁, _⟩ := c15_messageFee_layout f₁ p h₁
+  obtain ⟨b₂, e₂, _, _, _, _, s₂, _⟩ := c15_messageFee_layout f₂ p h₂
+  rw [e₁, e₂, ← s₁, ← s₂]
+
+theorem c15_transferFee_injective (a₁ r₁ a₂ r₂ : Str) (p : Bytes) (h₁ : transferFeePayload a₁ r₁ = .ok p)
+    (h₂ : transferFeePayload a₂ r₂ = .ok p) : hexDecode a₁ = hexDecode a₂ ∧ hexDecode r₁ = hexDecode r₂ := by
+  obtain ⟨x₁, y₁, ex₁, ey₁, _, _, _, _, _, sa₁, sr₁, _⟩ := c15_transferFee_layout a₁ r₁ p h₁
+  obtain ⟨x₂, y₂, ex₂, ey₂, _, _, _, _, _, sa₂, sr₂, _⟩ := c15_transferFee_layout a₂ r₂ p h₂
+  constructor
+  · rw [ex₁, ex₂, ← sa₁, ← sa₂]
+  · rw [ey₁, ey₂, ← sr₁, ← sr₂]
+
+theorem c15_guardianSet_injective (g₁ g₂ : List Guardian) (i₁ i₂ : Nat) (p : Bytes) (hi₁ : i₁ < 2 ^ 32) (hi₂ : i₂ < 2 ^ 32)
+    (h₁ : guardianSetPayload g₁ i₁ = .ok p) (h₂ : guardianSetPayload g₂ i₂ = .ok p) :
+    keysOf g₁ = keysOf g₂ ∧ i₁ = i₂ := by
+  obtain ⟨k₁, e₁, _, q₁⟩ := c15_guardianSet_lossless g₁ i₁ p hi₁ h₁
+  obtain ⟨k₂, e₂, _, q₂⟩ := c15_guardianSet_lossless g₂ i₂ p hi₂ h₂
+  rw [q₁] at q₂
+  simp only [Option.some.injEq, Prod.mk.injEq] at q₂
+  obtain ⟨hi, hk⟩ := q₂
+  exact ⟨by rw [e₁, e₂, hk], by omega⟩
+
+theorem c15_contractUpgrade_injective (s₁ s₂ : Str) (p : Bytes) (h₁ : contractUpgradePayload s₁ = .ok p)
+    (h₂ : contractUpgradePayload s₂ = .ok p) : hexDecode s₁ = hexDecode s₂ := by
+  obtain ⟨b₁, e₁, _, _, _, d₁, _⟩ := c15_contractUpgrade_layout s₁ p h₁
+  obtain ⟨b₂, e₂, _, _, _, d₂, _⟩ := c15_contractUpgrade_layout s₂ p h₂
+  rw [e₁, e₂, ← d₁, ← d₂]
+
+/-- (the module is compared as the number the contract reads: leading NUL bytes of the name do not matter) -/
+theorem c15_registerChain_injective (m₁ m₂ : Str) (c₁ c₂ : Nat) (e₁ e₂ : Str) (p : Bytes)
+    (h₁ : registerChainPayload m₁ c₁ e₁ = .ok p) (h₂ : registerChainPayload m₂ c₂ e₂ = .ok p) :
+    unbe m₁ = unbe m₂ ∧ c₁ = c₂ ∧ hexDecode e₁ = hexDecode e₂ := by
+  obtain ⟨b₁, x₁, _, _, hc₁, _, sm₁, _, sc₁, sb₁, _⟩ := c15_registerChain_layout m₁ c₁ e₁ p h₁
+  obtain ⟨b₂, x₂, _, _, hc₂, _, sm₂, _, sc₂, sb₂, _⟩ := c15_registerChain_layout m₂ c₂ e₂ p h₂
+  refine ⟨?_, ?_, ?_⟩
+  · rw [sm₁] at sm₂
+    rw [← unbe_padModule m₁, ← unbe_padModule m₂, Option.some.inj sm₂]
+  · rw [sc₁] at sc₂
+    exact be_inj_of_lt (by omega) (by omega) (Option.some.inj sc₂)
+  · rw [x₁, x₂, ← sb₁, ← sb₂]
+
+theorem c15_bridgeUpgrade_injective (m₁ m₂ s₁ s₂ : Str) (p : Bytes) (h₁ : bridgeUpgradePayload m₁ s₁ = .ok p)
+    (h₂ : bridgeUpgradePayload m₂ s₂ = .ok p) : unbe m₁ = unbe m₂ ∧ hexDecode s₁ = hexDecode s₂ := by
+  obtain ⟨b₁, e₁, _, _, sm₁, _, d₁, _⟩ := c15_bridgeUpgrade_layout m₁ s₁ p h₁
+  obtain ⟨b₂, e₂, _, _, sm₂, _, d₂, _⟩ := c15_bridgeUpgrade_layout m₂ s₂ p h₂
+  constructor
+  · rw [sm₁] at sm₂
+    rw [← unbe_padModule m₁, ← unbe_padModule m₂, Option.some.inj sm₂]
+  · rw [e₁, e₂, ← d₁, ← d₂]
+
+theorem c15_destroy_injective (c₁ c₂ : Nat) (s₁ s₂ : List Nat) (p : Bytes) (w₁ : ∀ s ∈ s₁, s < 2 ^ 64) (w₂ : ∀ s ∈ s₂, s < 2 ^ 64)
+    (h₁ : destroyPayload c₁ s₁ = .ok p) (h₂ : destroyPayload c₂ s₂ = .ok p) : c₁ = c₂ ∧ s₁ = s₂ := by
+  have q₁ := c15_destroy_lossless c₁ s₁ p w₁ h₁
+  have q₂ := c15_destroy_lossless c₂ s₂ p w₂ h₂
+  rw [q₁] at q₂
+  simpa using q₂
+
+theorem c15_minConsistency_injective (l₁ l₂ : Nat) (p : Bytes) (h₁ : minConsistencyPayload l₁ = .ok p)
+    (h₂ : minConsistencyPayload l₂ = .ok p) : l₁ = l₂ := by
+  have q₁ := c15_minConsistency_lossless l₁ p h₁
+  have q₂ := c15_minConsistency_lossless l₂ p h₂
+  rw [q₁] at q₂
+  simpa using q₂
+
+theorem c15_refundAddress_injective (s₁ s₂ : Str) (p : Bytes) (h₁ : refundAddressPayload s₁ = .ok p)
+    (h₂ : refundAddressPayload s₂ = .ok p) : hexDecode s₁ = hexDecode s₂ := by
+  obtain ⟨b₁, e₁, q₁⟩ := c15_refundAddress_lossless s₁ p h₁
+  obtain ⟨b₂, e₂, q₂⟩ := c15_refundAddress_lossless s₂ p h₂
+  rw [q₁] at q₂
+  rw [e₁, e₂, Option.some.inj q₂]
+
+/-- The injectivity is not vacuous — and is exactly what the unrepaired code lacked: there, levels 44 and 300 were both
+accepted and gave the same payload. Here 300 is rejected. -/
+example : (∃ p, minConsistencyPayload 44 = .ok p) ∧ ∃ e, minConsistencyPayload 300 = .err e := ⟨⟨_, rfl⟩, ⟨_, rfl⟩⟩
+
 /-! ## all kinds at once: the executable Spec holds of everything the model accepts -/
 
 /-- Whatever request the (repaired) conversion accepts, the contract-side parser of that kind accepts the payload and
